@@ -38,12 +38,21 @@ func TestSubRange(t *testing.T) {
 		pre, suf := pad("pre"), pad("suf")
 		force := rapid.IntRange(0, 5).Draw(rt, "force") == 0 && e.Format != "probe"
 		fill := rapid.Uint64().Draw(rt, "fill")
-		c.Set("case", map[string]any{"path": e.Path, "format": e.Format, "pre_bits": pre, "suf_bits": suf, "force": force, "fill": fill})
-		nBits := int64(len(e.Data)) * 8
-		if nBits == 0 {
+				nBits := int64(len(e.Data)) * 8
+		// sometimes the range ends inside the last byte (bit slices, tobits[:n])
+		if rapid.IntRange(0, 3).Draw(rt, "cut_tail") == 0 {
+			nBits -= int64(rapid.IntRange(1, 7).Draw(rt, "tail_bits"))
+			c.Label("subrange-length-not-whole-bytes")
+		}
+		if rapid.IntRange(0, 7).Draw(rt, "as_bytes") == 0 {
+			// the raw formats, whose top value is one leaf
+			e.Format = rapid.SampledFrom([]string{"bytes", "bits"}).Draw(rt, "rawfmt")
+		}
+		if nBits <= 0 {
 			c.Label("skipped:empty-file")
 			return
 		}
+		c.Set("case", map[string]any{"path": e.Path, "format": e.Format, "pre_bits": pre, "n_bits": nBits, "suf_bits": suf, "force": force, "fill": fill})
 		buf, bufBits := treeq.Embed(e.Data, nBits, pre, suf, fill)
 		res := &treegen.Result{}
 		func() {
